@@ -1,6 +1,6 @@
 /-
   Model of pkg/ebpf/loader.go MakeCircuitIDKey (fixed 32-byte key: copy = truncate / zero-pad) and HashCircuitID
-  (64-bit FNV-1a), plus the monitor that judges the keys the implementation produced for distinct circuit-ids.
+  (64-bit FNV-1a) and MACToUint64 (48-bit key of a hardware address), plus the monitor that judges the keys the implementation produced for distinct circuit-ids.
   Core Lean only.
 -/
 namespace Bng.CircuitKey
@@ -22,15 +22,23 @@ def hash (cid : List UInt8) : UInt64 :=
 def keySafe (cid : List UInt8) : Bool :=
   decide (cid.length ≤ keyLen) && (cid.getLast? != some 0)
 
-/-! ## Monitor: key ↦ the circuit-id it was produced for (observations only) -/
+/-- MACToUint64 (pkg/ebpf/loader.go), the key of the subscriber_pools fast-path cache that pkg/dhcp/server.go writes for
+    whatever hardware address (chaddr, hlen 1…16) the DHCP client sent: 0 for fewer than 6 bytes, otherwise the
+    first 6 bytes big-endian (the value is below 2^48, so `Nat` arithmetic is the uint64 arithmetic). -/
+def macKey (mac : List UInt8) : Nat :=
+  if mac.length < 6 then 0 else (mac.take 6).foldl (fun r b => r * 256 + b.toNat) 0
+
+/-! ## Monitor: key ↦ the circuit-id / hardware address it was produced for (observations only) -/
 
 structure Mon where
   keys   : List (List UInt8 × List UInt8) := []
   hashes : List (Nat × List UInt8) := []
+  macs   : List (Nat × List UInt8) := []
 
 inductive Ev where
   | key (cid k : List UInt8)
   | hash (cid : List UInt8) (h : Nat)
+  | mac (addr : List UInt8) (k : Nat)
   | nop
 
 /-- verdict = (name, detail, the OTHER circuit-id involved) -/
@@ -45,6 +53,11 @@ def check (m : Mon) : Ev → Mon × List (String × String × List UInt8)
     ({ m with hashes := if m.hashes.any (fun e => e.1 == h && e.2 == cid) then m.hashes else (h, cid) :: m.hashes },
      match m.hashes.find? (fun e => e.1 == h && e.2 != cid) with
      | some e => [("dup-key", "two different circuit-ids were given the same 64-bit hash key", e.2)]
+     | none => [])
+  | .mac addr k =>
+    ({ m with macs := if m.macs.any (fun e => e.1 == k && e.2 == addr) then m.macs else (k, addr) :: m.macs },
+     match m.macs.find? (fun e => e.1 == k && e.2 != addr) with
+     | some e => [("dup-key", "two different hardware addresses were given the same subscriber_pools key", e.2)]
      | none => [])
   | .nop => (m, [])
 
